@@ -113,11 +113,10 @@ def _sources(ctx):
         for c in range(3):
             n += 1
             r = to_rat(out.data[c])
-            if any(a == I for a in r.atoms()):
-                from ..extlib import imag_rat
+            from ..extlib import imag_rat
 
-                if not imag_rat(r).is_zero():  # i may cancel between numerator and denominator of the normal form
-                    bad.append((kind, axis, "complex incident" if cplx else "real incident", r.fmt()[:160]))
+            if not imag_rat(r).is_zero():  # also catches an imaginary unit hidden inside an opaque call such as exp(i x)
+                bad.append((kind, axis, "complex incident" if cplx else "real incident", r.fmt()[:160]))
     ctx.ob("R11.2", "TFSFPlaneSource.update_E/update_H", not bad and n >= 100, "the injected increment is a real expression for real and for complex incident profiles alike (the complex profile enters through its real and imaginary parts times a quadrature pair of real amplitudes)", bad[:2], "no imaginary unit")
     # zero Bloch vector: the halo correction is the identity
     ix = ctx.index
@@ -141,6 +140,55 @@ def _sources(ctx):
                 raise AnalysisError(f"apply_pad_correction: {e}")
         okb = okb and isinstance(out, NdArr) and all(to_rat(x).equals(to_rat(y)) for x, y in zip(out.data, F.data))
     ctx.ob("R11.2", "BlochBoundary.apply_pad_correction[k = 0]", okb, "with a zero Bloch vector the periodic halo is left exactly as it is — no factor exp(i 0) is multiplied in", okb, "identity")
+
+
+def _other_sources(ctx):
+    """sources outside the TFSF family: (a) the hard plane source writes a real value on both its E and its H branch;
+    (b) who-may-call: the complex effective inverse permittivity (which keeps the material loss as an imaginary part)
+    is taken only by the mode solver's set-up, never by a source that multiplies it into an injected value."""
+    from ..extlib import imag_rat
+    from ..harness import stub_repo_calls
+    from ..scene import vec
+
+    ix = ctx.index
+    Hs = ix.cls("fdtdx.objects.sources.source.HardConstantAmplitudePlanceSource")
+    bad, n = [], 0
+    for kind in "EH":
+        m = Hs.lookup_method(f"update_{kind}")
+        ctx.unit(m.where())
+        it = ctx.fresh_interp()
+        sc = Scene(ix, it)
+        pol = (NdArr((3,), [Rat.atom(f"pe{c}") for c in range(3)]), NdArr((3,), [Rat.atom(f"ph{c}") for c in range(3)]))
+        stub_repo_calls(it, {"normalize_polarization_for_source": lambda it_, a, k, _p=pol: _p})
+        wc = Obj(None, {"get_period": Builtin("get_period", lambda it_, a, k: Rat.atom("T")), "phase_shift": Rat.atom("phi")}, "wave")
+        absint_ints = ("s_xmin", "s_xmax", "s_ymin", "s_ymax", "s_zmin", "s_zmax")
+        from .. import absint
+
+        absint.INTEGER_ATOMS.update(absint_ints)
+        gst = tuple((Rat.atom(f"s_{a}min"), Rat.atom(f"s_{a}max")) for a in "xyz")
+        src = Obj(Hs, dict(name="hard", amplitude=Rat.atom("amp"), static_amplitude_factor=Rat.atom("A"), wave_character=wc, direction="+", propagation_axis=0, fixed_E_polarization_vector=None, fixed_H_polarization_vector=None, _config=sc.config(), _grid_slice_tuple=gst), "hard")
+        try:
+            out = it.call_method(src, f"update_{kind}", vec(kind), vec("ie"), vec("im"), Rat.atom("t"), False)
+        except Raised as r:
+            raise AnalysisError(f"HardConstantAmplitudePlanceSource.update_{kind} raises: {r}")
+        if not (isinstance(out, NdArr) and out.shape == (3,)):
+            raise AnalysisError(f"HardConstantAmplitudePlanceSource.update_{kind} returned {out!r}")
+        for c in range(3):
+            n += 1
+            r = to_rat(out.data[c])
+            if not imag_rat(r).is_zero():
+                bad.append((kind, c, r.fmt()[:200]))
+    ctx.ob("R11.2", "HardConstantAmplitudePlanceSource.update_E/update_H", not bad and n == 6, "the value the hard source writes is the real part of amplitude * exp(-i (w t + phase)) times real polarisation components, on the E and on the H branch alike — nothing imaginary is left for complex storage to keep", bad[:2], "no imaginary part")
+    NAME = "effective_complex_inv_permittivity"
+    callers = set()
+    for mi in ix.modules.values():
+        fns = list(mi.functions.values()) + [m_ for c_ in getattr(mi, "classes", {}).values() for m_ in c_.methods.values()]
+        for fi in fns:
+            for node in ast.walk(fi.node):
+                if isinstance(node, ast.Call) and ast.unparse(node.func).split(".")[-1] == NAME:
+                    callers.add(mi.name)
+    allowed = {"fdtdx.objects.sources.mode", "fdtdx.objects.detectors.mode", "fdtdx.dispersion"}
+    ctx.ob("R11.6", "effective_complex_inv_permittivity:callers", callers <= allowed and len(callers) >= 2, "the loss-carrying complex inverse permittivity is requested only by the mode set-up (whose profile is made real unless the quadrature injection applies, R11.5); dipoles and plane sources sample the real effective value, so no material loss can enter an injected value as an imaginary part", sorted(callers), sorted(allowed))
 
 
 COMPLEX_TESTS = ("iscomplexobj", "iscomplex", "complexfloating", "isrealobj", "use_complex_fields", "needs_complex_fields")
@@ -297,6 +345,7 @@ def run(ctx):
     _who_may_branch(ctx)
     _allocation(ctx)
     _sources(ctx)
+    _other_sources(ctx)
     _complex_profile_vs_filter(ctx)
     jobs = _solver_scenes()
     err = par.run_jobs(ctx, "sa.checks.c11", "_job", jobs, [j[0] for j in jobs])
